@@ -660,6 +660,35 @@ def check_C13(A: Analysis, tier):
             rc.fail(f, "finally: remove temp file", f"the temp file can survive an exceptional exit ({l}) of the temp writer", A.p.loc(f, f.node))
     rules.append(rc)
 
+    rf = Rule("C13", "C13.f", "once tagging has published a reference file, every error leaving "
+              "_store_hashstore_refs_files has passed through the roll-back handler", floor=2)
+    shr = A.p.func(Q("_store_hashstore_refs_files"))
+    generic = None
+    for t in func_nodes(shr, ast.Try):
+        if any(hh.type is not None and "HashStoreRefsAlreadyExists" in norm(hh.type) for hh in t.handlers):
+            for hh in t.handlers:
+                if hh.type is not None and norm(hh.type) == "Exception":
+                    generic = hh
+    if generic is None:
+        raise AnalysisError("_store_hashstore_refs_files: generic roll-back handler (except Exception next to the rejection handler) not found")
+    for m in ALL_MODES:
+        for e in ("tag_object", "store_object"):
+            it = A.api(e, m)
+            for c in it.calls:
+                if c["callee"] != Q("_store_hashstore_refs_files"):
+                    continue
+                for lab, states in (c.get("raise_states") or {}).items():
+                    for st in states:
+                        if ("prim", "RENAME", 1, "PIDREFS") not in st.done:
+                            continue
+                        rf.ob()
+                        rf.inst(f"{e} [{m}]: error {lab} after the pid reference was published")
+                        if ("caught", Q("_store_hashstore_refs_files"), generic.lineno) not in st.done:
+                            rf.fail(shr, f"raise of {lab} after publishing", f"an error ({lab}) raised after the pid reference file was moved into place "
+                                    "leaves _store_hashstore_refs_files without passing the roll-back handler: the call fails but the pid stays bound",
+                                    A.p.loc(shr, generic))
+    rules.append(rf)
+
     re_ = Rule("C13", "C13.e", "no call completes normally out of a handler that caught a library (I/O) error, "
                "except through a tabled swallower", floor=8)
     for m in ("th",):
@@ -794,6 +823,20 @@ def check_C14(A: Analysis, tier):
         rd.fail(vp, "else: ... raise", "existing store data without a configuration file is not refused", A.p.loc(vp, vp.node))
     rules.append(rd)
 
+    rf = Rule("C14", "C14.f", "every open reads the configuration from hashstore.yaml on disk: _load_properties and "
+              "_set_default_algorithms read the file on every path on which they return", floor=2)
+    it0 = A.run(Q("__init__"), "th")
+    for c in it0.calls:
+        if c["callee"] in (Q("_load_properties"), Q("_set_default_algorithms")) and c.get("after") is not None:
+            rf.ob()
+            rf.inst(f"{c['callee']} called at {c['func'].qual}:{c['node'].lineno}")
+            if ("prim", "READ", 0, "CONFIG") not in c["after"].done:
+                f_ = A.p.func(c["callee"])
+                rf.fail(f_, "read of hashstore.yaml", f"{c['callee'].split('.')[-1]} can return without having read hashstore.yaml from disk on this open: "
+                        "the properties are compared with / taken from something other than the store's own configuration file (e.g. a cache)",
+                        A.p.loc(f_, f_.node))
+    rules.append(rf)
+
     re_ = Rule("C14", "C14.e", "accepted store algorithms = keys of the translation table = default list written to yaml", floor=3)
     wp = A.p.func(Q("_write_properties"))
     acc = None
@@ -839,6 +882,19 @@ CHECKERS = {Q("_check_string"), Q("_check_arg_data"), Q("_check_integer"), Q("_c
             Q("_check_arg_format_id"), Q("_clean_algorithm")}
 # store_object(pid=None, data): documented data-only mode; the other arguments are ignored there
 DATA_ONLY_REQUIRED = {"data"}
+# the validations each public method performs up front at the pinned commit (confirmed by
+# reading; reference for later changes): each pair must have happened before any state change
+REQUIRED_VALIDATIONS = {
+    "store_object": [("_check_string", "pid"), ("_check_arg_data", "data"), ("_check_integer", "expected_object_size"),
+                     ("_check_arg_algorithms_and_checksum", "additional_algorithm"), ("_check_arg_algorithms_and_checksum", "checksum"),
+                     ("_check_arg_algorithms_and_checksum", "checksum_algorithm")],
+    "tag_object": [("_check_string", "pid"), ("_check_string", "cid")],
+    "delete_if_invalid_object": [("_check_string", "checksum"), ("_check_string", "checksum_algorithm"),
+                                 ("_check_integer", "expected_file_size"), ("_clean_algorithm", "checksum_algorithm")],
+    "store_metadata": [("_check_string", "pid"), ("_check_arg_data", "metadata"), ("_check_arg_format_id", "format_id")],
+    "delete_object": [("_check_string", "pid")],
+    "delete_metadata": [("_check_string", "pid"), ("_check_arg_format_id", "format_id")],
+}
 
 
 def check_C17(A: Analysis, tier):
@@ -880,6 +936,15 @@ def check_C17(A: Analysis, tier):
                     if not any(d[0] == "argof" and d[1] in CHECKERS and d[3] == P(p_) for d in ev.done if len(d) == 4):
                         ra.fail(site_func(ev), site_text(ev), f"{e} can change the store before `{p_}` has been validated: a call rejected for "
                                 f"`{p_}` would already have modified files", site_loc(A, ev), {"entry": e, "param": p_})
+                for chk, p_ in REQUIRED_VALIDATIONS.get(e, []):
+                    if p_ not in need and not (e == "store_object" and p_ in DATA_ONLY_REQUIRED):
+                        if e == "store_object" and F.implied(ev.facts, ("isnone", V(P("pid")))) is True:
+                            continue
+                    if e == "store_object" and p_ != "data" and F.implied(ev.facts, ("isnone", V(P("pid")))) is True:
+                        continue
+                    if not any(d[0] == "argof" and d[1] == Q(chk) and d[3] == P(p_) for d in ev.done if len(d) == 4):
+                        ra.fail(site_func(ev), site_text(ev), f"{e} can change the store before `{p_}` has passed {chk}: a value that {chk} rejects "
+                                "would be rejected only after (or instead of) modifying files", site_loc(A, ev), {"entry": e, "param": p_, "checker": chk})
                 if e == "delete_if_invalid_object":
                     if not any(f_[0] == "isinstance" and pol is True for f_, pol in ev.facts):
                         ra.fail(site_func(ev), site_text(ev), "delete_if_invalid_object can delete before object_metadata's type was checked", site_loc(A, ev))
@@ -1044,6 +1109,27 @@ def check_C20(A: Analysis, tier):
                 rc.fail(main, f"{meth}: required option {d}", f"{meth} is called although the required option `{d}` may be missing", A.p.loc(main, hit[0]["node"]))
     rules.append(rc)
     rules.append(rd)
+
+    rf = Rule("C20", "C20.f", "the create-store verb always hands the command-line properties to the API constructor "
+              "(whether they are acceptable for an existing store is the API's decision, not the client's)", floor=1)
+    creates = [c for c in it.calls if c["callee"] == "HashStoreClient.__init__" and any(
+        tag(t) == "dictlit" and any(any(tag(x) == "int" or tag(x) == "opt" for x in vv) for _, vv in t[1]) for a in c["args"] for t in a)]
+    creates = [c for c in creates if any(tag(t) == "dictlit" and any(k == C("store_depth") and any("depth" in str(x) for x in vv) for k, vv in t[1])
+                                          for a in c["args"] for t in a)]
+    rf.ob()
+    for c in creates:
+        rf.inst(f"main:{c['node'].lineno} {norm(c['node'])} under {len(c['state'].facts)} fact(s)")
+        fs = c["state"].facts
+        if F.implied(fs, ("truthy", V(("opt", "create_hashstore")))) is not True:
+            rf.fail(main, c["node"], "the store is created from command-line properties although -chs was not given", A.p.loc(main, c["node"]))
+        extra_guards = [f for f, pol in fs if f[0] == "probe"]
+        if extra_guards:
+            rf.fail(main, c["node"], "with -chs the command-line properties reach the API only under a file-system condition "
+                    f"({extra_guards[0][1]}(...)): for an existing store the API's property-mismatch refusal is bypassed and the verb silently runs "
+                    "with the old configuration", A.p.loc(main, c["node"]))
+    if not creates:
+        rf.fail(main, "HashStoreClient(props)", "-chs no longer constructs the store from the command-line properties", A.p.loc(main, main.node))
+    rules.append(rf)
 
     re_ = Rule("C20", "C20.e", "the client opens the store with exactly the API's required keys; depth and width are "
                "integers on both client paths", floor=2)
